@@ -183,6 +183,9 @@ def run_spellings(sc):
         docs = []
         for k, (kind, ext) in enumerate((("yaml2", "yaml"), ("toml2", "toml"), ("yaml1", "yaml"))):
             doc = (v1_doc if kind == "yaml1" else v2_doc)(sc, work)
+            if kind == "yaml2" and fv["optsec"] == "present" and fv.get("nullsec"):
+                # YAML's way of writing an empty section: the key with no body (null); TOML has no null, its empty table stays
+                doc = dict(doc, **{k: None for k in ("ibm", "warm_start") if doc.get(k) == {}})
             txt = toml_dumps(doc) if kind == "toml2" else yaml.safe_dump(doc)
             txt = txt.replace("OUTNAME", f"out_{kind}.nc")
             path = os.path.join(work, f"c_{kind}.{ext}")
@@ -258,6 +261,7 @@ def scenario(rng):
     fv["ibm"] = rng.random() < 0.4
     fv["xforce"] = fv["ibm"] and rng.random() < 0.5
     fv["v1files"] = rng.random() < 0.4
+    fv["nullsec"] = rng.random() < 0.5
     if fv["xforce"]:
         base["hasscal"] = True
     base["fv"] = fv
